@@ -198,6 +198,26 @@ func Judge(k *run.K, domain string, a, b geom.Geometry) {
 			}
 		}
 	}
+	// the matrix is a function of the point sets in the plane: independent Z/M values at every control
+	// point (different at coinciding XY: ring and line closing points, repeated vertices, touching members)
+	// must not change it, whatever the coordinate type of either operand
+	if k.Index%2 == 0 {
+		az, bz := a, b
+		if k.Rng.Intn(3) > 0 {
+			az = shared.Payload(k.Rng, a, shared.PayloadCT(k.Rng))
+		}
+		if k.Rng.Intn(3) > 0 || az.CoordinatesType() == geom.DimXY {
+			bz = shared.Payload(k.Rng, b, shared.PayloadCT(k.Rng))
+		}
+		var gz, gzT string
+		var ez, ezT error
+		if !k.Lib("nopanic", func() {
+			gz, ez = geom.Relate(az, bz)
+			gzT, ezT = geom.Relate(bz, az)
+		}) {
+			k.Check("payload-blind", ez == nil && ezT == nil && gz == want && gzT == transpose(want), "Relate with Z/M payload = %q/%q (err %v/%v), exact DE-9IM %q\n a=%s\n b=%s", gz, gzT, ez, ezT, want, az.AsText(), bz.AsText())
+		}
+	}
 	// identities between calls
 	var wba, cbba bool
 	var inter bool
